@@ -383,17 +383,18 @@ def edge_ladder(cls: str, depth: int, name: str = "e"):
     number of paths to the bottom is >= 2^depth while the number of nodes is linear in `depth`.
     Returns one root (Array or DictOfNamedArrays); all built through the public API."""
     pt = _pt()
-    from pytato.distributed.nodes import staple_distributed_send
+    from pytato.distributed.nodes import make_distributed_recv, staple_distributed_send
     from pytato.function import trace_call
     if cls in ("index", "index-expr", "csr"):
         a = pt.make_placeholder(name + "i", (4,), I64)
         b = pt.make_placeholder(name + "f", (4,), F64)
     elif cls == "shape":
-        a = pt.make_placeholder(name + "s0", (2, 2), I64)
-        b = a
+        a = pt.make_size_param(name + "n")
+        b = pt.make_size_param(name + "m")
+        arrs = []
     else:
         a = pt.make_placeholder(name, (4, 4), F64)
-        b = a
+        b = pt.make_placeholder(name + "2", (4, 4), F64) if cls in ("stack", "concatenate", "einsum", "where") else a
     fdef = None
     for k in range(depth):
         if cls == "bind":
@@ -403,15 +404,20 @@ def edge_ladder(cls: str, depth: int, name: str = "e"):
         elif cls == "index-expr":
             a = a[(a + 1) % 4]
         elif cls == "stack":
-            a, b = pt.stack([a, b], axis=0)[0], pt.stack([b, a], axis=0)[1]
+            a, b = pt.stack([a, b], axis=0)[0] + a, pt.stack([b, a], axis=0)[1] * b
         elif cls == "concatenate":
-            a, b = pt.concatenate([a, b], axis=0)[0:4], pt.concatenate([b, a], axis=0)[2:6]
+            # (+ a / * b: an IndexLambda STORES its shape; Concatenate / BasicIndex derive theirs from
+            # their operands on every access, which is itself per-path — see the C13 report)
+            a, b = pt.concatenate([a, b], axis=0)[0:4] + a, pt.concatenate([b, a], axis=0)[2:6] * b
         elif cls == "where":
-            a, b = pt.where(a > b, a, b), pt.where(b > 1, b, a)
+            a, b = pt.where(pt.greater(a, b), a, b), pt.where(pt.greater(b, 1), b, a)
         elif cls == "shape":
-            # array-valued shape components computed FROM the previous rung's arrays
-            a, b = (pt.make_placeholder(f"{name}sa{k}", (a[0, 0] + 1, b[1, 1] + 1), I64),
-                    pt.make_placeholder(f"{name}sb{k}", (b[0, 0] + 1, a[1, 1] + 1), I64))
+            # shape components may only depend on size parameters: the ladder is a ladder of scalar
+            # size expressions, and EVERY rung is also the (stored) shape component of two arrays
+            sm = a + b
+            a, b = sm, sm + 1
+            arrs += [pt.make_placeholder(f"{name}p{k}", (a, 4), F64) + pt.make_placeholder(f"{name}q{k}", (a, 4), F64),
+                     make_distributed_recv(src_rank=0, comm_tag=2000 + k, shape=(b, 4), dtype=F64)]
         elif cls == "call":
             if fdef is None:
                 def f(p, q):
@@ -430,8 +436,9 @@ def edge_ladder(cls: str, depth: int, name: str = "e"):
                     pt.reshape(pt.reshape(a, (16,)), (4, 4)) * pt.roll(b, 2, 1))
         elif cls == "csr":
             rs = pt.concatenate([a, a[0:1]], axis=0)      # 5 row starts
-            b = pt.make_csr_matrix((4, 4), b, a % 4, rs) @ b
-            a = a[a % 4]
+            am = a % 4
+            b = pt.make_csr_matrix((4, 4), b, am, rs) @ b
+            a = a[am]
         elif cls == "container":
             d = pt.make_dict_of_named_arrays({"x": a, "y": b})
             a, b = d["x"] * d["y"], d["y"] + d["x"]
@@ -441,4 +448,6 @@ def edge_ladder(cls: str, depth: int, name: str = "e"):
             raise ValueError(cls)
     if cls in ("index", "index-expr"):
         return a
+    if cls == "shape":
+        return pt.make_dict_of_named_arrays({f"o{i}": x for i, x in enumerate(arrs)})
     return pt.make_dict_of_named_arrays({"a": a, "b": b})
